@@ -118,7 +118,7 @@ def unit_pbkw():
     byc = " (wrap_keys by its contract, proved in wrap_keys_contract_h)"
     hs = [Harness("wrap_keys_contract_h", ["C07", "C04"], complete=False, bound="ALL parameter blocks, salts, 2-byte passwords", functions=[f"{PW}::wrap_keys", f"{PW}::kdf"],
                   desc="the REAL wrap_keys: acceptance set, error kinds, key derivation == specification"),
-          Harness("params_acceptance_is_spec_h", ["C07"], complete=False, bound="ALL parameter blocks, salts, 2-byte passwords", functions=[f"{PW}::wrap_keys"],
+          Harness("params_acceptance_is_spec_h", ["C07", "C05"], complete=False, bound="ALL parameter blocks, salts, 2-byte passwords", functions=[f"{PW}::wrap_keys"],
                   desc="the REAL wrap_keys accepts exactly the specification-valid parameter blocks (same rule as the sibling's pbkdf_contract_h)"),
           Harness("wrap_is_spec_32_default", ["C07", "C05", "C16"], complete=False, bound="local key, default parameters (64 MiB, 2, 1), 2-byte password" + byc, functions=fn),
           Harness("wrap_is_spec_64_custom", ["C07", "C05", "C16"], complete=False, bound="secret key, mem=8MiB,time=3,para=1, 1-byte password" + byc, functions=fn),
